@@ -395,9 +395,10 @@ def fieldDeclBody (r : Tbl) : P Field := do
       let tag ← stringLiteralOrNone
       let comments ← drainComments
       return .mk names typ tag comments
-  | some (_, .operator .Star) => do
+  | some (pos, .operator .Star) => do
     next
     let typ ← r.qualifiedIdent none
+    let typ := Expression.TypePointer (.mk pos typ)
     let tag ← stringLiteralOrNone
     let comments ← drainComments
     return .mk [] typ tag comments
